@@ -177,12 +177,39 @@ inductive XResp where
   | order (r : Result)
   deriving DecidableEq, Repr, Inhabited
 
+/-- chrono's `DateTime::<Utc>::MAX_UTC` (`+262142-12-31T23:59:59.999999999Z`) in the unit of the
+protocol, milliseconds since the epoch (`timestamp_millis`); the harness clock hands out whole
+milliseconds, so `time_request + δ ms` is representable iff it is `≤ maxTime`. -/
+def maxTime : Int := 8210266876799999
+
+/-- `DateTime::<Utc>::MIN_UTC` (`-262143-01-01T00:00:00Z`) in milliseconds. A client clock cannot
+return a value outside `[minTime, maxTime]` (there is no such `DateTime<Utc>`). -/
+def minTime : Int := -8334601228800000
+
+/-- `MockExchange::update_time_exchange` (mod.rs:124-129):
+`time_request.checked_add_signed(TimeDelta::milliseconds(latency_ms / 2)).unwrap_or(time_request)` —
+half a latency after the request time, or the request time ITSELF when the sum is past chrono's
+largest `DateTime<Utc>` (the delta is never negative, `TimeDelta::milliseconds` accepts every
+`(u64 / 2) as i64`, so this is the only way `checked_add_signed` fails). -/
+def stampTime (latency : Nat) (t : Int) : Int :=
+  if t + ((latency / 2 : Nat) : Int) ≤ maxTime then t + ((latency / 2 : Nat) : Int) else t
+
+/-- The C08 ledger (`MockExchange.step`, reused unchanged) stamps `t + latency / 2` unconditionally;
+fed with this request time it stamps exactly what the code stamps (`stampTime`): `t` itself in
+range, `t - latency / 2` past the end of chrono's range. -/
+def ledgerTime (latency : Nat) (t : Int) : Int := stampTime latency t - ((latency / 2 : Nat) : Int)
+
+/-- A history with the request times the ledger is fed. -/
+def ledgerOps (l : Nat) (ops : List (Int × Request)) : List (Int × Request) :=
+  ops.map fun op => (ledgerTime l op.1, op.2)
+
 /-- One iteration of `MockExchange::run` (mod.rs:72-119) with the order maps: the ledger part is the
-C08 `step`; `update_time_exchange` also stamps the open orders; the snapshot and the open-order
-query read the order maps. -/
+C08 `step` (at the request time under which its stamp is the code's, `ledgerTime`);
+`update_time_exchange` also stamps the open orders; the snapshot and the open-order query read the
+order maps. -/
 def XState.step (x : XState) (t : Int) (rq : Request) : XState × XResp × List Event :=
-  let r := MockExchange.step x.base t rq
-  let te : Int := t + ((x.base.latency / 2 : Nat) : Int)
+  let r := MockExchange.step x.base (ledgerTime x.base.latency t) rq
+  let te : Int := stampTime x.base.latency t
   let x' : XState := { base := r.1, opens := stampOpens te x.opens, cancels := x.cancels }
   let resp : XResp :=
     match r.2.1 with
@@ -566,10 +593,24 @@ inductive Answer where
   | unsupported
   deriving DecidableEq, Repr, Inhabited
 
+/-- Exchange time of a request the client stamped `t`: half a latency later — except that the
+exchange's clock cannot pass the last instant a `DateTime<Utc>` can hold (`maxTime`): a request whose
+exchange time would lie beyond it keeps its own time (`update_time_exchange`'s `unwrap_or`). -/
+def exchTime (c : XCfg) (t : Int) : Int :=
+  let half : Int := ((c.base.latency / 2 : Nat) : Int)
+  if maxTime < t + half then t else t + half
+
+/-- The open-order requests of a history (oldest first) with the exchange time at which each was
+seen, newest first (the input of the C08 specification). -/
+def seenOpens (c : XCfg) : List (Int × Request) → List MockExchange.Spec.Ev
+  | [] => []
+  | (t, .openOrder r) :: rest => seenOpens c rest ++ [⟨exchTime c t, r⟩]
+  | _ :: rest => seenOpens c rest
+
 /-- The exchange's answer to request `rq` stamped `t`, after it has seen `hist` (oldest first). -/
 def answer (c : XCfg) (hist : List (Int × Request)) (t : Int) (rq : Request) : Answer :=
-  let acc := MockExchange.Spec.accepted c.base (opens c.base hist)
-  let te := exchangeTime c.base t
+  let acc := MockExchange.Spec.accepted c.base (seenOpens c hist)
+  let te := exchTime c t
   match rq with
   | .fetchSnapshot => .snapshot (MockExchange.Spec.ledger c.base acc) te (groups (ordersAt c te))
   | .fetchBalances => .balances (MockExchange.Spec.ledger c.base acc) te
